@@ -14,6 +14,7 @@ import TraitsVerif.Generated.Mutators
 import TraitsVerif.Lemmas.PyLList
 import TraitsVerif.Generated.CtorCopy
 import TraitsVerif.Model.CtorCopyAssumed
+import TraitsVerif.Lemmas.PyLCtor
 namespace TraitsVerif.Props.C05
 open TraitsVerif TraitsVerif.Py TraitsVerif.Model
 variable {α : Type}
@@ -264,5 +265,33 @@ state has no `notifiers`, the restored object has `[]`. -/
 theorem C05_copy_source :
     (Generated.CtorCopy.traitListCtorCopy.drop 2) = (Model.CtorCopyAssumed.traitListCtorCopy.drop 2) := by
   first | rfl | exact ⟨rfl, rfl⟩
+
+/-- **C05_init_is_source.**  `TraitList.__init__` as an interpreted program
+(`translate/ctorprog.py`, `Model/PyLCtor.lean`): for every iterable, validator
+choice and notifier argument, running the translated body on the object
+`__new__` left gives exactly the modelled constructor — the validator is the
+caller's iff one was given, every item goes through it in order with the call
+ordinal threaded and nothing is stored when one fails (`TraitList.init`), and
+the notifier list is a private copy of the caller's list, never that list
+object itself (seeded C05-m9). -/
+theorem C05_init_is_source (C : PyLC.Ctx α) (xs : List α) (iv : Option PyLC.VSrc) (ns : Option PyLC.NSrc) :
+    PyLC.runListInit Generated.Ctor.traitListInit C xs iv ns = PyLC.listInit C xs iv ns ∧
+    (∀ E : Env α, C.given = E.v →
+      (PyLC.listInit C xs (some .arg) ns).map (·.items) = TraitList.init E xs) ∧
+    (∀ o, PyLC.listInit C xs iv ns = .ok o → o.notifiers ≠ .argAlias ∧ o.notifiers ≠ .ownAlias) := by
+  refine ⟨Lemmas.PyLCtor.list_init_is_source C xs iv ns, ?_, ?_⟩
+  · intro E hE
+    simp only [PyLC.listInit, TraitList.init, Option.getD, PyLC.Ctx.vOf, hE]
+    cases valAll E.v 0 xs <;> rfl
+  · intro o ho
+    simp only [PyLC.listInit] at ho
+    cases hv : valAll (C.vOf (iv.getD .everything)) 0 xs with
+    | error e => simp [hv] at ho
+    | ok ys =>
+      simp only [hv, Except.ok.injEq] at ho
+      subst ho
+      rcases ns with _ | n
+      · simp
+      · cases n <;> simp
 
 end TraitsVerif.Props.C05
